@@ -723,13 +723,16 @@ void vt_native_assume(int); void vt_native_assert(int, const char *); void vt_na
 #if defined(__CPROVER__)
 uint64_t __CPROVER_uninterpreted_vt_fmul(uint64_t, uint64_t); uint64_t __CPROVER_uninterpreted_vt_fdiv(uint64_t, uint64_t);
 uint64_t __CPROVER_uninterpreted_vt_fadd(uint64_t, uint64_t); uint64_t __CPROVER_uninterpreted_vt_fsub(uint64_t, uint64_t);
-#define VT_UF(name, cop, comm) static inline double vt_uf_##name(double a, double b) { union { double d; uint64_t u; } x, y, r; x.d = a; y.d = b; \
+#define VT_UF(name, cop, comm, nanok) static inline double vt_uf_##name(double a, double b) { union { double d; uint64_t u; } x, y, r; x.d = a; y.d = b; \
     if (comm && y.u < x.u) { uint64_t t = x.u; x.u = y.u; y.u = t; } /* commutative operations: operand order is canonicalised */ \
-    r.u = __CPROVER_uninterpreted_vt_##name(x.u, y.u); return r.d; }
+    r.u = __CPROVER_uninterpreted_vt_##name(x.u, y.u); \
+    /* sound range fact: an operation on two finite operands never yields NaN (division: unless 0/0) */ \
+    if (a - a == 0.0 && b - b == 0.0 && (nanok || a != 0.0 || b != 0.0)) __CPROVER_assume(r.d == r.d); \
+    return r.d; }
 #else
-#define VT_UF(name, cop, comm) static inline double vt_uf_##name(double a, double b) { return a cop b; }
+#define VT_UF(name, cop, comm, nanok) static inline double vt_uf_##name(double a, double b) { return a cop b; }
 #endif
-VT_UF(fmul, *, 1) VT_UF(fdiv, /, 0) VT_UF(fadd, +, 1) VT_UF(fsub, -, 0)
+VT_UF(fmul, *, 1, 1) VT_UF(fdiv, /, 0, 0) VT_UF(fadd, +, 1, 1) VT_UF(fsub, -, 0, 1)
 #if defined(VT_NEW_CAP) && defined(__CPROVER__)
 static inline void vt_new_cap_check(uint64_t n) { if (n > VT_NEW_CAP) { __CPROVER_assert(0, "bounded std model capacity exceeded (allocation above VT_NEW_CAP)"); __CPROVER_assume(0); } }
 #define VT_NEW_ARRAY(T, nbytes) (vt_new_cap_check(nbytes), (uint8_t*)malloc(sizeof(T) * (VT_NEW_CAP / sizeof(T))))
@@ -857,6 +860,8 @@ class FuncTrans:
 
     def instr(s, t):
         em = s.em
+        if re.match(r'^(tail )?call void asm sideeffect "#', t):
+            return    # inline asm that is only an assembler comment (Eigen markers)
         p = P(tokenize(t))
         dest = None
         if p.peek()[0] == 'lname' and p.peek(1)[1] == '=':
